@@ -28,7 +28,7 @@ def run(tier, seed, work):
     t0 = time.time()
     quick = tier == "quick"
     binary = verif.build()
-    per, depth, nj = (3, 25, 12) if quick else (20, 40, 16)
+    per, depth, nj = (8, 30, 16) if quick else (40, 40, 16)
     crashed = []
 
     def one(j):
